@@ -146,8 +146,12 @@ def regen(snap):
                 continue
             r = run([sys.executable, p] + args)
             if r.returncode != 0:
-                msgs.append('%s: %s' % (script, r.stdout.strip()))
+                msgs.append('%s: %s' % (script, r.stdout.strip()[-300:]))
+    REGEN_ERRORS[:] = msgs
     return msgs
+
+
+REGEN_ERRORS = []
 
 
 class CoqLock:
@@ -225,6 +229,10 @@ def check_obligations(prop, extra_targets=()):
                 ax.add(mm.group(1))
     res['axioms'] = sorted(ax)
     res['closed'] = log.count('Closed under the global context')
+    if REGEN_ERRORS:
+        # the model could not be regenerated from the source: the theorems are about a stale model
+        res['failed'].append({'where': 'translator', 'error': '; '.join(REGEN_ERRORS)})
+        res['discharged'] = 0
     bad = coq_hygiene()
     if bad:
         res['failed'].append({'where': 'hygiene', 'error': '; '.join(bad[:5])})
@@ -264,6 +272,10 @@ class Check:
                         self.known.append((finding_key, k.get('what', what)))
                     return
         p = self.replay_path(tag)
+        n = 1
+        while os.path.exists(p) and p in [v[1] for v in self.violations]:
+            n += 1
+            p = self.replay_path('%s_%d' % (tag, n))
         with open(p, 'w') as f:
             json.dump({'property': self.prop, 'what': what, 'replay': replay_obj}, f, indent=1, default=str)
         self.violations.append((what, p, no_input))
